@@ -96,6 +96,8 @@ pub struct Exec {
     pub keys: Vec<i64>,
     pub next_child: usize,
     pub npolls: u64,
+    /// a group operation has been carried out
+    pub touched: bool,
 }
 
 fn ev_ret(w: &mut World, r: &RetEv) {
@@ -308,7 +310,12 @@ impl Exec {
                     }
                 }
             }
-            "extend" => {
+            "extend" | "fromiter" => {
+                let from_iter = name == "fromiter";
+                // `fromiter` replaces the group the run starts with: only while nothing has happened to it
+                if from_iter && (self.next_child != 0 || self.cur.is_some() || self.touched) {
+                    return;
+                }
                 let cnt = args.first().and_then(|v| v.as_u64()).unwrap_or(1) as usize;
                 let mut cs = vec![];
                 for _ in 0..cnt {
@@ -322,10 +329,13 @@ impl Exec {
                 }
                 with(|w| w.ensure_child(*cs.last().unwrap()));
                 let cs2 = cs.clone();
-                let r = catch_unwind(AssertUnwindSafe(|| cut.op(Op::Extend(cs2))));
+                let r = catch_unwind(AssertUnwindSafe(|| cut.op(if from_iter { Op::FromIter(cs2) } else { Op::Extend(cs2) })));
                 match r {
                     Ok(OpRes::Keys(ks)) => {
                         with(|w| {
+                            if from_iter {
+                                w.ev(format_args!("{{\"e\":\"fromiter\",\"n\":{}}}", cs.len()));
+                            }
                             for (c, k) in cs.iter().zip(ks.iter()) {
                                 w.ev(format_args!("{{\"e\":\"insert\",\"c\":{},\"key\":{}}}", c, k));
                             }
@@ -394,6 +404,7 @@ impl Exec {
         }
         // the caller holds `&mut` to the group: it is the consumer task itself and polls again
         self.needs_poll = true;
+        self.touched = true;
         self.view();
     }
 }
@@ -466,6 +477,7 @@ pub fn run_vector(v: &Vector) -> String {
         keys: vec![],
         next_child: if is_group { 0 } else { nscripts },
         npolls: 0,
+        touched: false,
     };
     with(|w| w.ev(format_args!("{{\"e\":\"built\"}}")));
     for cmd in &v.cmds {
@@ -495,7 +507,7 @@ pub fn run_vector(v: &Vector) -> String {
             "settle" => ex.settle(false),
             "settle_all" => ex.settle(true),
             "drop" => ex.drop_cut(),
-            "insert" | "remove" | "removekey" | "reserve" | "extend" => ex.group_op(name, &arr[1..], nscripts),
+            "insert" | "remove" | "removekey" | "reserve" | "extend" | "fromiter" => ex.group_op(name, &arr[1..], nscripts),
             _ => {}
         }
     }
